@@ -689,7 +689,7 @@ func c16Structural(c *core.Ctx, pkgs ...string) {
 	}
 	sort.Strings(lims)
 	c.Ob("D/readers-agree-on-the-longest-line-accepted", len(lineLimits) == 1, token.NoPos, "the readers accept different maximum line lengths, so one alignment is read or rejected depending on its wrapping and on the reader: %s", strings.Join(lims, "; "))
-	c.Floor("D/scanner-readers", nScan, 4)
+	c.Floor("D/scanner-readers", nScan, 1) // the readers may share one scanning core
 }
 
 func containsStr(xs []string, x string) bool {
